@@ -402,7 +402,7 @@ pub fn meta_receivers() -> BTreeMap<&'static str, RecvDesc> {
         "L5",
         Struct(loose(&[
             "tarray", "tbarefn", "tgroup", "timpl", "tinfer", "tmacro", "tnever", "tparam", "tparen", "tpath", "tptr", "tref", "tslice", "ttrait", "ttuple", "punctexpr", "punctty", "hmsu", "bmil",
-            "hmpt", "many", "pstr",
+            "hmpt", "many", "pstr", "spvl", "sphm", "spmeta", "sppl", "spres", "wovl", "ovpl",
         ])),
     ));
     // keyed collections as root targets (C14); hash maps and their ordered twins share site ids
